@@ -74,7 +74,7 @@ static void hash_history (YaepAllocator *al)
   t = create_hash_table (al, (size_t) sx_param ("size", 0), h_fn, eq_fn);
   for (s = 0; s < K; s++)
     {
-      int op = sx_choice ("op", 4), e = (s == 0 && sx_param ("el0", -1) >= 0) ? (int) sx_param ("el0", -1) : sx_choice ("el", nel);
+      int op = pick_op (s, "op", 4), e = (s == 0 && sx_param ("el0", -1) >= 0) ? (int) sx_param ("el0", -1) : sx_choice ("el", nel);
       sx_observe ("op", op); sx_observe ("el", e);
       if (op == 0)
         { /* insert (find with reserve, store if absent) */
